@@ -361,7 +361,8 @@ def run_witness_task(task):
                 break
             try:
                 if kind == "closed-resume":
-                    script, info = with_time_limit(min(left, task["timeout"]), W.search, su, U, k, K, "closed", resume=True, timeout_s=int(min(left, task["timeout"])))
+                    # close_until (stopped at a symbolic point, possibly when nothing is left to do); up to two further calls; close()
+                    script, info = with_time_limit(min(left, task["timeout"]), W.search, su, U, max(1, k - 1), K, "closed", resume=True, k2=min(2, k - 1), timeout_s=int(min(left, task["timeout"])))
                 elif kind == "enum":
                     script, info = with_time_limit(min(left, task["timeout"]), W.search, su, U, k, K, "enum", early=True, timeout_s=int(min(left, task["timeout"])))
                     if script is None:
